@@ -24,23 +24,41 @@ Definition with_loc (sp : spec) (nl : loc) : spec :=
   | SHairpins st w _ => SHairpins st w nl
   | SEnforceSequence w _ => SEnforceSequence w nl
   | SEnforceChoice cs _ => SEnforceChoice cs nl
-  | other => other
+  | STranslation T _ tr st => STranslation T nl tr st
+  | SRareCodons fr mf _ => SRareCodons fr mf nl
+  | SMaximizeCAI lf lb _ => SMaximizeCAI lf lb nl
+  | other => other       (* not relocated by this model: see [circular_modelled] *)
   end.
 Definition spec_location (sp : spec) : option loc :=
   match sp with
   | SAvoidPattern _ l | SPatternOcc _ _ l | SGC _ _ _ l | SStopCodons _ l | SHairpins _ _ l
-  | SEnforceSequence _ l | SEnforceChoice _ l => Some l
+  | SEnforceSequence _ l | SEnforceChoice _ l | STranslation _ l _ _ | SRareCodons _ _ l
+  | SMaximizeCAI _ _ l => Some l
   | _ => None
+  end.
+(* the classes whose circularization this file models (the correspondence only sends those);
+   HarmonizeRCA, UniquifyAllKmers (own shifted()), EnforceTerminalGCContent and SequenceLengthBounds
+   (no location: the circular class raises) are outside *)
+Definition circular_modelled (sp : spec) : bool :=
+  match sp with
+  | SHarmonizeRCA _ _ _ _ _ | SUniquify _ _ _ _ _ | STerminalGC _ _ _ _ | SLength _ _ => false
+  | _ => true
   end.
 (* AvoidChanges.shifted: the location AND the indices move (the target and the allowance stay) *)
 Definition shift_avoid_changes (l : loc) (idx : option (list Z)) (tg : dna) (me : Z) (d : Z) : spec :=
   SAvoidChanges (loc_add l d) (option_map (map (fun i => i + d)) idx) tg me.
+(* EnforceChanges.shifted: same (the reference, the amounts and the 100 % flag stay) *)
+Definition shift_enforce_changes (l : loc) (idx : option (list Z)) (ref : dna) (mn : option Z) (am : option Q)
+           (full : bool) (d : Z) : spec :=
+  SEnforceChanges (loc_add l d) (option_map (map (fun i => i + d)) idx) ref mn am full.
 Definition circularized (L : Z) (sp : spec) : list spec :=
   match sp with
   | SAvoidChanges l idx tg me =>
       (* position-wise specification: never spread over the three copies, one shifted version per copy
          (whole-sequence location included) *)
       map (shift_avoid_changes l idx tg me) [0; L; 2 * L]
+  | SEnforceChanges l idx ref mn am full =>
+      map (shift_enforce_changes l idx ref mn am full) [0; L; 2 * L]
   | _ =>
     match spec_location sp with
     | Some l => map (with_loc sp) (circularized_locs L l)
